@@ -188,6 +188,18 @@ func TestC03_P_PathSelector(t *testing.T) {
 				}
 			}
 		}
+		if perturb == "none" && len(segs) > 0 && rapid.IntRange(0, 7).Draw(t, "caseFlip") == 0 {
+			// one segment in another letter case: another name (unless a sibling is called just that)
+			i := rapid.IntRange(0, len(segs)-1).Draw(t, "flipAt")
+			for _, repl := range []string{strings.ToUpper(segs[i]), strings.ToLower(segs[i]), strings.Title(strings.ToLower(segs[i]))} {
+				if _, clash := nodes[i].Kids[repl]; !clash && repl != segs[i] && !strings.Contains(repl, "/") && repl != "" {
+					segs = append(append([]string{}, segs[:i]...), append([]string{repl}, segs[i+1:]...)...)
+					perturb = "case-flipped-segment"
+					exists = false
+					break
+				}
+			}
+		}
 		if perturb == "none" && len(segs) > 0 && rapid.IntRange(0, 7).Draw(t, "suffix") == 0 {
 			// last segment replaced by a proper suffix / prefix of itself that is not an entry there
 			last := segs[len(segs)-1]
@@ -627,6 +639,53 @@ func TestC03_R_VeryDeepPaths(t *testing.T) {
 		bogus := strings.Join(segs, "/") + "/nope"
 		if ms, _, err := c03Walk(st, root.Root, bogus, "match", false); err != nil || len(ms) != 0 {
 			t.Fatalf("C03: path of %d segments naming no entry: %d matches, err %v", k+1, len(ms), err)
+		}
+	}
+}
+
+// A file whose DAG is a ladder hundreds of levels deep (every node links one leaf and the next node - an append-only log
+// written chunk by chunk): the path selector delivers its exact bytes for every target, and its tail can be read alone.
+func TestC03_R_VeryDeepFileDAG(t *testing.T) {
+	for _, levels := range []int{17, 64, 65, 70, 300} {
+		var data []byte
+		leaves := make([][]byte, levels+1)
+		for i := range leaves {
+			leaves[i] = []byte{byte(i), byte(i >> 8), byte(levels)}
+			data = append(data, leaves[i]...)
+		}
+		node := &mnode{IsRaw: true, Raw: leaves[levels]}
+		size := uint64(len(leaves[levels]))
+		for i := levels - 1; i >= 0; i-- {
+			m := &mnode{HasData: true, UFS: &ufsFields{Type: 2, BlockSizes: []uint64{uint64(len(leaves[i])), size}, FileSize: u64p(uint64(len(leaves[i])) + size)}}
+			m.Links = []mlink{{Tsize: i64p(int64(len(leaves[i]))), Child: &mnode{IsRaw: true, Raw: leaves[i]}}, {Tsize: i64p(int64(size) + 50), Child: node}}
+			node, size = m, size+uint64(len(leaves[i]))
+		}
+		file := &tnode{Data: data, Hand: node}
+		root := c03Dir(false, map[string]*tnode{"log": file, "x": c03File(3)})
+		st := NewStore()
+		if err := root.build(st); err != nil {
+			t.Fatal(err)
+		}
+		for _, which := range []string{"match", "preload", "entity"} {
+			ms, _, err := c03Walk(st, root.Root, "log", which, false)
+			if err != nil || len(ms) != 1 {
+				t.Fatalf("C03: path to a file whose DAG is %d levels deep, target %s: %d matches, err %v", levels, which, len(ms), err)
+			}
+			if err := c03Describe(ms[0].Node, file); err != nil {
+				t.Fatalf("C03: file whose DAG is %d levels deep, target %s: %v", levels, which, err)
+			}
+			if which == "match" {
+				rs, err := ms[0].Node.(datamodel.LargeBytesNode).AsLargeBytes()
+				if err != nil {
+					t.Fatal(err)
+				}
+				if _, err := rs.Seek(-4, io.SeekEnd); err != nil {
+					t.Fatal(err)
+				}
+				if tail, err := io.ReadAll(rs); err != nil || !bytes.Equal(tail, data[len(data)-4:]) {
+					t.Fatalf("C03: file whose DAG is %d levels deep: its last 4 bytes read as %x, %v", levels, tail, err)
+				}
+			}
 		}
 	}
 }
